@@ -409,6 +409,33 @@ def detect_variants():
     except Exception as e:
         v['idx_fixed'] = False
         notes.append('Path.intersect index probe raised %r' % e)
+    # bezier_intersections: box overlap test / stopping rule, relative resolution, merging
+    try:
+        from svgpathtools.bezier import boxes_intersect
+        v['bx_fixed'] = bool(boxes_intersect((0, 1, 0, 0), (0, 1, 0, 0)))
+    except Exception as e:
+        v['bx_fixed'] = False
+        notes.append('boxes_intersect probe raised %r' % e)
+    sc = 1e-4
+    st, r = guarded(lambda: QuadraticBezier(54j * sc, (18 + 54j) * sc, (36 + 45j) * sc).intersect(
+        QuadraticBezier(22j * sc, (18 + 94j) * sc, (36 + 13j) * sc)), 20)
+    v['rel_fixed'] = bool(st == 'ok' and r and min(abs(float(a) - 1 / 3) for a, b in r) < 1e-5)
+    st, r = guarded(lambda: QuadraticBezier(15.324665862845563 + 15.884670584687983j, 22.19462280287324 + 42.67661440069012j,
+                                            47.19486262028253 + 56.61845286837022j).intersect(
+        QuadraticBezier(-53.19202893744374 - 26.296810658075483j, 1.6174496564117706 - 31.592201899846756j,
+                        30.612474610639474 + 54.356993597602084j)), 20)
+    n = len(r) if st == 'ok' else -1
+    v['mg_fixed'] = (n == 2)
+    if n < 2:
+        notes.append('merge probe returned %s pairs for 2 crossings' % n)
+    # Path.intersect joint de-duplication: by point (pinned) or by point and place
+    try:
+        p = Path(Line(0, 3), Line(3, 3 + 4j), Line(3 + 4j, 0), Line(0, 3))
+        res = p.intersect(Path(Line(1 - 1j, 1 + 1j)))
+        v['jd_fixed'] = len(res) == 2
+    except Exception as e:
+        v['jd_fixed'] = False
+        notes.append('joint de-duplication probe raised %r' % e)
     v['notes'] = notes
     _VARIANTS = v
     return v
